@@ -208,8 +208,8 @@ def _k0():
         raise Undecided("extraction out of date: start of the algorithm phase in run()")
     prefix = body[:i]
     prefix = X.rewrite(prefix, [
-        (r"throw std::runtime_error\(\s*(\"[^\"]*\")\);", r"VP_THROWV(\1);", 1, "exceptions", "throw -> ghost flag + return"),
-        (r"\b_k\b", "vp_k", (1, 2), "type-binding", "member _k (std::size_t)"),
+        (r"throw std::runtime_error\(\s*(\"[^\"]*\")\);", r"VP_THROWV(\1);", (0, 3), "exceptions", "throw -> ghost flag + return"),
+        (r"\b_k\b", "vp_k", (0, 3), "type-binding", "member _k (std::size_t)"),
         (r"#ifdef PARMCB_INVARIANTS_CHECK\s*check_edge_length_preconditions\(\);\s*#endif", "", (0, 1), "drop", "weight sanity check (no output)"),
         (r"EdgeWeightMapType spanner_weight_map = get\(boost::edge_weight,\s*_spanner\);", "", (0, 1), "drop", "property map handle"),
     ], log)
